@@ -2,6 +2,8 @@
 from ..core import HarnessError
 
 _BY_PROP = {
+    'C04': ('optics', 'TiltScenario'),
+    'C07': ('optics', 'ViewsScenario'),
     'C08': ('ptype', 'PtypeScenario'),
     'C09': ('fft', 'FftScenario'),
     'C10': ('purity', 'PurityScenario'),
